@@ -493,6 +493,40 @@ pub fn run(tier: Tier) -> i32 {
         }
         string_counts.push(json!({"alphabet": name, "symbols": k, "max_len": maxlen, "strings": total}));
     }
+    // ---- template lane: every byte value (and every pair of byte values) at every kind of
+    // position of the grammar; '?' marks a hole, the two '?' of a two-hole template vary independently
+    let one_hole: Vec<&str> = vec![
+        "(?n=v)", "(c?n=v)", "(cn?=v)", "(cn?v)", "(cn=?)", "(cn=a?b)", "(cn=?*a)", "(cn=a*?*b)", "(cn=a*?)", "(cn:=?)", "(cn~=?)", "(cn>=?v)",
+        "(cn;?x=v)", "(cn;x?=v)", "(cn;x-?;y=v)", "(2.?.4=v)", "(2.5?=v)", "(?.5=v)", "(2.5.4?3=v)",
+        "(cn:?ule:=v)", "(cn:r?le:=v)", "(cn:rul?:=v)", "(:r?:=v)", "(:2.?:=v)", "(cn:dn?:=v)", "(cn:?n:=v)", "(cn:dn:r?:=v)", "(cn:2.5?:=v)",
+        "(cn=\\?1)", "(cn=\\4?)", "(cn=a\\?1b)", "(cn:=\\2?)", "(cn=*\\?a)",
+        "?(cn=v)", "(cn=v)?", "(?(cn=v))", "(&?(cn=v))", "(&(cn=v)?)", "(&(cn=v)?(sn=w))", "(!(cn=v)?)", "(|(cn=v)(sn=w))?",
+        "?n=v", "c?=v", "cn=?", "cn=v?", "?cn=v", "cn:=?", "cn=a*?", "cn=?*b", "objectClas?=*", "(cn=*?)", "(cn?*)",
+    ];
+    let two_hole: Vec<&str> = vec!["(cn=\\??)", "(cn=??)", "(c??=v)", "(cn:??:=v)", "cn=??", "(cn;??=v)", "(cn=v??"];
+    let mut template_strings = 0u64;
+    for t in &one_hole {
+        let tb = t.as_bytes();
+        let pos = tb.iter().position(|c| *c == b'?').expect("hole");
+        for b in 0..=255u8 {
+            let mut s = tb.to_vec();
+            s[pos] = b;
+            judge_string(&rep, &s, &c, "template");
+            template_strings += 1;
+        }
+    }
+    for t in &two_hole {
+        let tb = t.as_bytes().to_vec();
+        let holes: Vec<usize> = tb.iter().enumerate().filter(|(_, c)| **c == b'?').map(|(i, _)| i).collect();
+        assert_eq!(holes.len(), 2);
+        par_for(65536, |i| {
+            let mut s = tb.clone();
+            s[holes[0]] = (i >> 8) as u8;
+            s[holes[1]] = (i & 0xff) as u8;
+            judge_string(&rep, &s, &c, "template");
+        });
+        template_strings += 65536;
+    }
     // real-world shaped strings that the bounded alphabets cannot reach
     for s in [
         "(entryDN:dnSubtreeMatch:=dc=x)",
@@ -506,6 +540,23 @@ pub fn run(tier: Tier) -> i32 {
         "(seeAlso=)",
         "(a;x-1;y=\\00\\ff)",
         "uid=jdoe",
+        // arcs of an OID are unbounded numbers
+        "(1.2.4294967295=v)",
+        "(1.2.4294967296=v)",
+        "(2.5.340282366920938463463374607431768211456.1=v)",
+        "(cn:1.3.6.1.4.1.99999999999999999999:=v)",
+        "(:1.2.18446744073709551616:=v)",
+        "(0.0=v)",
+        "(1.02=v)",
+        "(01.2=v)",
+        "(organizationName;lang-xz=Zzyzx)",
+        "(zz-9Z;z-z=z)",
+        "(a=v) ",
+        " (a=v)",
+        "a=v ",
+        " a=v",
+        "(a=v)\n",
+        "(a= v )",
     ] {
         judge_string(&rep, s.as_bytes(), &c, "handwritten");
     }
@@ -513,11 +564,13 @@ pub fn run(tier: Tier) -> i32 {
     let cvr = cov(vec![
         ("evaluations", json!(c.evals.load(Ordering::Relaxed))),
         ("distinct_nontrivial", json!(c.accepted_either.load(Ordering::Relaxed))),
-        ("rule", json!("AST lane: every item AST over the attribute/rule/value alphabets rendered with every per-byte escaping choice {raw, \\xx, \\XX}, with and without outer parentheses, plus depth-2 composites; string lane: every byte string over the stated alphabets up to the stated length (distinct by construction). non-trivial = accepted by the reference recogniser or by the real parser")),
+        ("rule", json!("AST lane: every item AST over the attribute/rule/value alphabets rendered with every per-byte escaping choice {raw, \\xx, \\XX}, with and without outer parentheses, plus depth-2 composites; string lane: every byte string over the stated alphabets up to the stated length (distinct by construction); template lane: filter templates with a hole at every kind of grammar position (attribute, option, OID arc, matching rule, value, both escape digits, operators, before/after/between filters, bare items), the hole filled with every byte 0..=255, two-hole templates with every pair of bytes. non-trivial = accepted by the reference recogniser or by the real parser")),
         ("ast_items", json!(ast_items)),
         ("ast_renderings_checked", json!(ast_evals)),
         ("composites", json!(composites.load(Ordering::Relaxed))),
         ("string_lanes", json!(string_counts)),
+        ("template_strings", json!(template_strings)),
+        ("templates", json!({"one_hole_all_256_bytes": one_hole.len(), "two_holes_all_65536_pairs": two_hole.len()})),
         ("accepted_by_reference", json!(c.ref_accepted.load(Ordering::Relaxed))),
         ("accepted_by_real_parser", json!(c.real_accepted.load(Ordering::Relaxed))),
         ("in_must_reject_class", json!(c.must_reject.load(Ordering::Relaxed))),
